@@ -55,7 +55,7 @@ const (
 	OpFToUInt
 	OpSIntToF // signed int -> float bits of width w; z3 only (fp.to_ieee_bv)
 	OpUIntToF
-	OpFToF // float width conversion; z3 only
+	OpFToF   // float width conversion; z3 only
 	OpFArith // val = '+','-','*','/' ; z3 only
 	OpFNeg
 )
